@@ -504,6 +504,10 @@ def check_vanish(run, an):
     seat = ab.get('seat')
     v = an.seated.get(seat)
     if v is None:
+        # the peer went away before it was seated (in the middle of its connecting line): look
+        # the connection up by who opened it
+        v = next((x for x in an.views.values() if x.client_role == f'client:{seat}'), None)
+    if v is None:
         return
     # which pt thread served that connection: accept order
     role = f'pt:{v.accept_index}' if v.accept_index is not None else None
@@ -561,6 +565,11 @@ def run_vanish(task):
         scn['seats'][pt[3]]['kind'] = 'scripted'
         scn['abort'] = {'kind': 'vanish', 'what': 'vanish', 'seat': pt[3], 'board': pt[0],
                         'phase': pt[1], 'index': pt[2]}
+        if rng.random() < 0.35:
+            # the peer goes away while its very first line is still on its way: before the first
+            # byte, somewhere inside "Connecting ... version 18", or right after its CR
+            scn['abort'].update(board=0, phase='connect', index=rng.choice(
+                (0, 1, rng.randint(2, 40), rng.randint(2, 60), 10 ** 6 - 1)))
         sched = session.default_sched() if j == 0 else s1.gen_sched(
             rng, {'decisions': 3000, 'steps': 3000, 'bytes': 20000, 'now': 20.0, 'messages': 600,
                   'roles': ['server', 'pt:0', 'pt:1', 'pt:2', 'pt:3'], 'nstable': {}, 'kinds': {}})
